@@ -112,6 +112,24 @@ func (w *world) goValue(g sx.S) interface{} {
 			out = append(out, w.goValue(x))
 		}
 		return out
+	case "tlist":
+		items := make([]interface{}, 0, len(l)-1)
+		same := len(l) > 1
+		for _, x := range l[1:] {
+			v := w.goValue(x)
+			items = append(items, v)
+			if v == nil || reflect.TypeOf(v) != reflect.TypeOf(items[0]) {
+				same = false
+			}
+		}
+		if !same {
+			return items
+		}
+		sl := reflect.MakeSlice(reflect.SliceOf(reflect.TypeOf(items[0])), 0, len(items))
+		for _, v := range items {
+			sl = reflect.Append(sl, reflect.ValueOf(v))
+		}
+		return sl.Interface()
 	case "tstrs":
 		out := []string{}
 		for _, x := range l[1:] {
@@ -286,6 +304,9 @@ func (a *anyRes) Len(list interface{}) int {
 	if l, ok := list.(*alist); ok {
 		return len(l.items)
 	}
+	if rv := reflect.ValueOf(list); rv.Kind() == reflect.Slice && rv.Type().Elem().Kind() == reflect.Ptr {
+		return rv.Len() // a typed slice of objects
+	}
 	return 0
 }
 func (a *anyRes) Nth(list interface{}, i int) (interface{}, error) {
@@ -294,6 +315,9 @@ func (a *anyRes) Nth(list interface{}, i int) (interface{}, error) {
 			return nil, fmt.Errorf("nth failed")
 		}
 		return l.items[i], nil
+	}
+	if rv := reflect.ValueOf(list); rv.Kind() == reflect.Slice && rv.Type().Elem().Kind() == reflect.Ptr && i < rv.Len() {
+		return rv.Index(i).Interface(), nil
 	}
 	return nil, fmt.Errorf("nth failed: not a list")
 }
@@ -716,6 +740,14 @@ func canonData(v interface{}) sx.S {
 		out := []sx.S{"o"}
 		for _, k := range keys {
 			out = append(out, sx.L(sx.A(k.n), canonData(t[k.k])))
+		}
+		return out
+	}
+	if rv := reflect.ValueOf(v); rv.IsValid() && rv.Kind() == reflect.Slice {
+		// any other typed slice that reached "data" unconverted
+		out := []sx.S{"l"}
+		for i := 0; i < rv.Len(); i++ {
+			out = append(out, canonData(rv.Index(i).Interface()))
 		}
 		return out
 	}
